@@ -86,6 +86,7 @@ func (ts *TemplateOp) CloneWith(ctx ActionContext) Action {
 	return &TemplateOp{
 		Template: ts.Template,
 		Trim:     ts.Trim,
+		ParseAs:  ts.ParseAs,
 		Path:     ctx.TemplateEngine().RenderLenient(ts.Path, ctx.Snapshot()),
 	}
 }
